@@ -16,8 +16,12 @@ NA = {
 "C16":"Level-slice sufficiency compares two pure authorizations; the slice is computed in-process, not fetched through a seam.",
 "C17":"The manifest loader trait is crate-private with only the in-memory slicer; from outside slice_entities is a pure function.",
 "C18":"Symbolic compilation on literal environments is pure term construction; the solver I/O is explicitly outside the property."}
-PENDING = {k:"claimed in DESIGN.md section 4 but its world is not implemented yet in this commit (under construction)" for k in ["C08","C19","C20"]}
+PENDING = {k:"claimed in DESIGN.md section 4 but its world is not implemented yet in this commit (under construction)" for k in ["C19","C20"]}
 CHECKS = {
+"C08": dict(world="policyset", cat="exploration", ref="DESIGN.md 4.3",
+  text="Seeded search over policy-set edit histories (add, add_template, link with exact/missing/extra/wrong-target bindings, unlink, remove_static, remove_template, merge with and without renaming where `other` comes from its own sub-history) over a small colliding id pool, about half of the operations designed to fail; after every step the set is compared with a name/role model at set level, authorization over the edited set with the model's table, and every new link with the static policy obtained by textual substitution on all probe requests (plus effect and annotations).",
+  note="Trusted: the name/role model and conflict rule written from the documented contracts, the atom evaluator shared with C01, the getrandom interposition. 'Unchanged after a failed op' is judged at set level, not iteration order; merge may rename more than necessary.",
+  tech="deterministic simulation: seeded edit/merge histories with designed-to-fail operations vs name/role model + substitution oracle"),
 "C01": dict(world="authz", cat="exploration", ref="DESIGN.md 4.1",
   text="Seeded search over histories of policy-set edits, store edits and authorization calls against one long-lived Authorizer; every response (decision, reason set, erroring ids) is compared with an exact reference model (three-valued atom evaluator + decision table); purity is decided by re-issuing requests on unchanged state and by rebuilding the same logical state on fresh threads under other hash orders, permuted insertion orders and respelled / auto-numbered policy ids.",
   note="Trusted: the harness's ~150-line atom evaluator and decision table, the getrandom interposition. The atom family is workload (scope forms, when/unless, type errors, overflow, missing attributes/entities), not the whole expression language. Errors compared as id sets; messages and vector order not compared.",
